@@ -694,6 +694,40 @@ class Explorer:
             c.walk(world[n])  # includes the caller's mutable buffer "__M__" (a DataFrame) where present
         return (c.digest(), model_canon(model), self.gcur)
 
+    def held_chain(self, world, model, path, events, gsnap, gdig):
+        """Held-result rule.  The BFS copies the world before every event, and a copy separates a returned array / frame
+        from the internal buffer it may be a view of; so for every expanded state and every fitted detector one chain of
+        output-producing events is executed WITHOUT intermediate copies (on one copy of the world, discarded afterwards):
+        predict(d0), predict(d1), transform_scores(d1), predict(d0), transform(d0), predict(d1).  step() re-examines, after
+        each event, the object returned by the previous one."""
+        data = self.cfg["data"]
+        if len(data) < 2:
+            return
+        menu = set(events)
+        for name, m in model.items():
+            if m.role != "det" or not m.fitted:
+                continue
+            chain = [("predict", name, data[0]), ("predict", name, data[1]), ("tscores", name, data[1]), ("predict", name, data[0]),
+                     ("transform", name, data[0]), ("predict", name, data[1])]
+            if any(e not in menu or not self.enabled(e, model) for e in chain):
+                continue
+            w3 = copy.deepcopy(world, {id(v): v for v in DATA.values()})
+            m3 = {n: mm.copy() for n, mm in model.items()}
+            if self.gcur != gdig:
+                self.G.restore(gsnap)
+                self.gcur = gdig
+            p3 = list(path)
+            try:
+                with core.case_timer():
+                    for e in chain:
+                        if not self.step(w3, m3, e, p3):
+                            break
+                        p3.append(e)
+            except core.CaseTimeout:
+                pass
+            self.gcur = self.G.digest()
+            self.acc.count("held_result_chains")
+
     def initial(self):
         objs = self.make()
         names = {id(o): n for n, o in objs.items()}
@@ -718,6 +752,7 @@ class Explorer:
             world, model, path, gsnap, gdig = frontier.popleft()
             if len(path) >= self.depth:
                 continue
+            self.held_chain(world, model, path, events, gsnap, gdig)
             for ev in events:
                 if not self.enabled(ev, model):
                     continue
